@@ -388,6 +388,27 @@ func c02PPOracle(c c02PPCase) error {
 	if !bytes.Equal(want.Bytes(), whole.Out) {
 		return fmt.Errorf("pp output is not its input with each dump replaced by its rendering: %s", firstDiffBytes(want.Bytes(), whole.Out))
 	}
+	// "When it exits 0 its output is its input ...": with a standard output that accepts
+	// nothing, a stream that has output cannot end in exit 0.
+	if len(whole.Out) > 0 && !c.File && digestBytes(c.S.Bytes())%3 == 0 {
+		if full, ferr := os.OpenFile("/dev/full", os.O_WRONLY, 0); ferr == nil {
+			defer full.Close()
+			cmd := exec.Command(ppPath(), args...)
+			cmd.Stdin = bytes.NewReader(c.S.Bytes())
+			cmd.Stdout = full
+			var e bytes.Buffer
+			cmd.Stderr = &e
+			cmd.Env = append(os.Environ(), "GOTRACEBACK=all", "TERM=dumb")
+			rerr := cmd.Run()
+			if _, isExit := rerr.(*exec.ExitError); rerr != nil && !isExit {
+				return fmt.Errorf("HARNESS: pp: %v", rerr)
+			}
+			if rerr == nil {
+				return fmt.Errorf("pp exited 0 although its standard output accepts no byte (/dev/full) and %d bytes of output were due; stderr=%q", len(whole.Out), quoteShort(e.Bytes()))
+			}
+			statsFor("C02").class("pp_with_failing_stdout", 1)
+		}
+	}
 	return nil
 }
 
